@@ -469,24 +469,23 @@ theorem names_accepted_exactly (core : List Str) (plugins : List (Str × Str)) (
 example : acceptsName [['d','b','m']] [(['v'], ['m',':','C'])] ['v'] = true ∧
           acceptsName [['d','b','m']] [(['v'], ['m',':','C'])] ['x'] = false := by decide
 
-/-- **choosing by name**: a name of the table gives its class wherever it was written; an unknown name is reported as
-    `ERROR: …` (exit code 3) for `--backend` in every place and for `-r` on the command line, ends in a KeyError
-    traceback (exit code 3) for a reporter named in a config section or DOIT_CONFIG, and leaves `DoitMain.run` as an
-    uncaught KeyError for a loader (`[GLOBAL] loader = NAME`). -/
+/-- **choosing by name**: a name of the table gives its class wherever it was written; an unknown reporter / backend /
+    loader name is reported as `ERROR: …` (exit code 3) wherever it was written — command line, config section of any
+    source, DOIT_CONFIG. -/
 theorem pick_by_name (cat : Category) (w : Where) (core : List Str) (plugins : List (Str × Str)) (n : Str) :
     (∀ loc, alookup n plugins = some loc → pick cat w (nameTable core plugins) n = .cls (.plugin loc)) ∧
     (alookup n plugins = none → n ∈ core → pick cat w (nameTable core plugins) n = .cls (.core n)) ∧
-    (n ∉ core → n ∉ plugins.map (·.1) → pick cat w (nameTable core plugins) n = unknownName cat w) := by
+    (n ∉ core → n ∉ plugins.map (·.1) → pick cat w (nameTable core plugins) n = .errorMsg) := by
   refine ⟨?_, ?_, ?_⟩
   · intro loc h; simp [pick, nameTable_lookup, h]
   · intro h hc; simp [pick, nameTable_lookup, h, hc]
   · intro hc hp
     have : alookup n plugins = none := alookup_not_mem n plugins hp
-    simp [pick, nameTable_lookup, this, hc]
+    simp [pick, nameTable_lookup, this, hc, unknownName]
 
-example : pick .reporter .config (nameTable [['z']] []) ['q'] = .traceback3 ∧
+example : pick .reporter .config (nameTable [['z']] []) ['q'] = .errorMsg ∧
           pick .reporter .cmdline (nameTable [['z']] []) ['q'] = .errorMsg ∧
-          pick .loader .config (nameTable [] []) ['q'] = .escapes ∧
+          pick .loader .config (nameTable [] []) ['q'] = .errorMsg ∧
           pick .backend .dodo (nameTable [['z']] [(['z'], ['m',':','C'])]) ['z'] = .cls (.plugin ['m',':','C']) := by decide
 
 /-- **a text in a config file is converted like the same text on the command line** for int / str options
@@ -521,6 +520,15 @@ theorem cmdText_is_parse_step (st : PState) (p : Params) (o : Opt) (s : Str) (h 
 
 example : (applyOpt false [] Params.empty ⟨['n'], .int, .i 0, none, ['n'], [], [], none⟩ false ['x']).2.toBool = false := by
   decide
+
+/-- before the fix of F-C16f an unknown reporter name from a config section / DOIT_CONFIG ended in a KeyError traceback
+    and an unknown loader name left `DoitMain.run` as an uncaught KeyError; only the command line was checked -/
+theorem pinned_unknown_reporter_name_unchecked :
+    unknownNamePinned .reporter .config = .traceback3 ∧ unknownNamePinned .reporter .dodo = .traceback3 ∧
+    unknownNamePinned .reporter .cmdline = .errorMsg ∧ unknownNamePinned .loader .config = .escapes ∧
+    (∀ c w, unknownName c w = .errorMsg) := by
+  refine ⟨rfl, rfl, rfl, rfl, ?_⟩
+  intro c w; rfl
 
 /-- **plugin entries that do not load** (`name = module:attr` with no or two colons, a module that does not import, an
     attribute the module does not have): for reporters and backends ONE such entry anywhere in the section ends the
@@ -564,7 +572,8 @@ theorem plugin_loading (cat : Category) (w : Where) (core : List Str) (sect : Li
 example : pickLoaded .reporter .cmdline [['z']] [(['q'], ['n','o',':','X'])] [(['m'], [['C']])] ['z'] = .traceback3 ∧
           pickLoaded .loader .config [] [(['q'], ['n','o',':','X']), (['p'], ['m',':','C'])] [(['m'], [['C']])] ['p']
             = .cls (.plugin ['m',':','C']) ∧
-          pickLoaded .loader .config [] [(['q'], ['m'])] [(['m'], [['C']])] ['q'] = .escapes := by decide
+          pickLoaded .loader .config [] [(['q'], ['m'])] [(['m'], [['C']])] ['q'] = .escapes ∧
+          pickLoaded .loader .config [] [(['q'], ['m'])] [(['m'], [['C']])] ['x'] = .errorMsg := by decide
 
 /-- **the sub-command by name**: a `COMMAND` plugin named like a core command REPLACES it (also `run`, also when `run`
     is only implied); a first word that is no command name leaves the command `run` with every word as argument; only
